@@ -603,6 +603,16 @@ Definition c03_run (t : tree) : tree :=
         | Ok (cs, _) => L (map (fun c => enc_call (flat_call c)) cs)
         end) (schedules jds)).
 
+(* hypotheses of C03 for the fast / network generator: a rectangular jds and a positive size per topology.
+   NO handshake condition: grouper() hands a short last group to the callback as it is, so the calls still
+   carry the whole shuffled stub list (GenC03P.placement_fast_nohs) and the uniformity theorems, which hold
+   for every jds, apply.  (The custom generator pops the short partition first and drops a full one: there
+   the placement cannot be read off the calls, the handshake condition stays a hypothesis.) *)
+Definition validb_nohs (sizes : list nat) (jds : list (list nat)) : bool :=
+  let T := ncols jds in
+  forallb (fun r => Nat.eqb (length r) T) jds &&
+  forallb (fun k => Nat.ltb k (length sizes) && Nat.ltb 0 (size_of sizes k)) (seq 0 T).
+
 (* input: [tag; jds; sizes; motif_indices; observations = list of [calls; weight]]
    answer: 2 = hypotheses not met, 1 = histogram flat and complete, 0 = not *)
 Definition c03_check (t : tree) : tree :=
@@ -612,4 +622,5 @@ Definition c03_check (t : tree) : tree :=
   let mis := match tag with 2 => t_natss (t_nth 3 t) | _ => singleton_mis (ncols jds) end in
   let obs := map (fun x => (placement sizes mis (ncols jds) (map dec_call (t_list (t_nth 0 x))),
                             t_nat (t_nth 1 x))) (t_list (t_nth 4 t)) in
-  if validb sizes mis jds then of_bool (c03_okb jds obs) else I 2.
+  let hyp := match tag with 2 => validb sizes mis jds | _ => validb_nohs sizes jds end in
+  if hyp then of_bool (c03_okb jds obs) else I 2.
